@@ -28,6 +28,28 @@ def _prop_ops(prop, region):
     return [op for op in cex.OPS.get(region, []) if op in cex.PROP_OPS.get(prop, [])]
 
 
+def _region_ops(region):
+    import cex
+    return cex.OPS.get(region, [])
+
+
+# Precondition clauses that carry a property by themselves: a call in code taken from /repo that fails one of them is
+# reported without further confirmation even when the calling function differs from its contract baseline (the guard
+# before a speculative pop, the flush-before-exit and exit-status rule).  Every other failed obligation in a changed
+# function -- including auxiliary preconditions such as `get_req(idx)` -- needs a concrete failing input.
+CARRYING_CLAUSES = ("speculative_mode()", "delivered(", "code == 0")
+
+
+def _carrying(v):
+    if not v.get("site_in_code"):
+        return False
+    d = v.get("detail") or ""
+    # the clause Verus marks as the failed precondition
+    m = re.search(r"\n\s*\d+\s*\|([^\n]*)\n[^\n]*-+ failed precondition", d)
+    clause = m.group(1) if m else d
+    return any(c in clause for c in CARRYING_CLAUSES)
+
+
 def match_known(prop, v, known):
     for f in known.get("findings", []):
         if f.get("status") != "known" or f.get("property") != prop:
@@ -52,7 +74,8 @@ def finish(prop, tier, seed, results, wall, known, no_evidence=False):
             k = match_known(prop, v, known)
             if k:
                 known_hits.append((k, v))
-            elif v.get("changed_vs_contract") and not v.get("contract_only") and _prop_ops(prop, v["region"]):
+            elif v.get("changed_vs_contract") and not v.get("contract_only") and _region_ops(v["region"]) \
+                    and not _carrying(v) and msg_kind(v["msg"]) not in ("decreases", "termination"):
                 # The function differs from the text its proof hints were written for. Where the replay driver can exercise
                 # this function for this property, a failed proof alone is not reported: it must be confirmed by a concrete
                 # failing input on the real code; otherwise the run is undecided (exit 2). (This includes failed
